@@ -13,15 +13,20 @@ func (s *Service) startWorker() {
 	s.mu.Lock()
 	defer s.mu.Unlock()
 	defer s.wg.Done()
+	defer verifNote("w.exit", "", 0)
+	verifNote("w.start", "", 0)
 	// workqueue being nil signals we the service is closing
 	for s.workqueue != nil {
 		for len(s.workqueue) == 0 {
+			verifNote("w.wait", "", 0)
 			s.workcond.Wait()
+			verifNote("w.woke", "", 0)
 			if s.workqueue == nil {
 				return
 			}
 		}
 		w := s.workqueue[0]
+		verifNote("w.pop", w.wid, len(s.workqueue))
 		if len(s.workqueue) == 1 {
 			s.workqueue = s.workbuf[:0]
 		} else {
@@ -37,11 +42,16 @@ func (w *work) processQueue() {
 
 	for len(w.queue) > idx {
 		f = w.queue[idx]
+		verifNote("w.run", w.wid, idx)
 		w.s.mu.Unlock()
+		verifGate("worker.unlocked")
 		idx++
 		f()
+		verifGate("worker.done")
 		w.s.mu.Lock()
+		verifNote("w.relock", w.wid, idx)
 	}
+	verifNote("w.retire", w.wid, len(w.queue)-idx)
 	// Work complete. Delete if it has a work ID.
 	if w.wid != "" {
 		delete(w.s.rwork, w.wid)
